@@ -355,10 +355,17 @@ func genC20(t *rapid.T, tier string) interface{} {
 				return rapid.SampledFrom([]int64{0, 1, 999999999, 1000000000, 59999999999, 60000000000, 86399000000000, 86400000000000, 946684799999999999, 946684800000000000, 4102444800000000000}).Draw(t, l) + int64(rapid.IntRange(0, 1).Draw(t, l+"d"))
 			}
 			secs := func(l string) int64 { return rapid.Int64Range(0, 253402300799).Draw(t, l) }
-			if rapid.Bool().Draw(t, "wide") {
-				return c20Item{Kind: "timekeys", X: secs("tx"), Y: secs("ty"), A: "sec"}
+			// the same instants written in other zones (a genesis file may carry "+05:00" timestamps): the key is
+			// built from the instant, whatever the location of the time.Time value
+			zone := ""
+			if rapid.Bool().Draw(t, "zoned") {
+				offs := []int{0, 3600, -3600, 19800, -34200, 50400, -43200, 1, -1}
+				zone = fmt.Sprintf("%d:%d", rapid.SampledFrom(offs).Draw(t, "za"), rapid.SampledFrom(offs).Draw(t, "zb"))
 			}
-			return c20Item{Kind: "timekeys", X: mk("tx"), Y: mk("ty"), A: "nano"}
+			if rapid.Bool().Draw(t, "wide") {
+				return c20Item{Kind: "timekeys", X: secs("tx"), Y: secs("ty"), A: "sec", B: zone}
+			}
+			return c20Item{Kind: "timekeys", X: mk("tx"), Y: mk("ty"), A: "nano", B: zone}
 		}
 	}), 1, 12).Draw(t, "items")
 	return p
@@ -1028,6 +1035,12 @@ func c20TimeKeys(it *c20Item) (bool, *Violation) {
 	} else {
 		ta, tb = time.Unix(0, it.X).UTC(), time.Unix(0, it.Y).UTC()
 	}
+	if it.B != "" {
+		var za, zb int
+		if _, err := fmt.Sscanf(it.B, "%d:%d", &za, &zb); err == nil {
+			ta, tb = ta.In(time.FixedZone("", za)), tb.In(time.FixedZone("", zb))
+		}
+	}
 	ka, kb := postypes.KeyForUnstakingValidators(ta), postypes.KeyForUnstakingValidators(tb)
 	back, err := sdk.ParseTimeBytes(ka[1:])
 	if err != nil || !back.Equal(ta) {
@@ -1051,7 +1064,7 @@ func init() {
 			"multi-coin fees x memos with quotes/unicode/maximal length x extreme entropy; Base/Module accounts; Validator; signing info; Coins; Int incl. +-(2^255-1); Dec; Address nil/empty/20 bytes; pos " +
 			"params; pos/auth/gov genesis states with map sections) checked for JSON, length-prefixed and bare binary round trips by re-encoding equality, and for StdTx canonical sign bytes (equal across " +
 			"binary / JSON / permuted-and-reindented JSON, different for a change of chain id, entropy, memo, fee or one message field); (b) a byte string (random, or a valid encoding truncated / " +
-			"bit-flipped / extended) offered to one of 11 decoders: error, or a value that re-encodes consistently, never a panic; (c) pairs of (stake, address) and of times for power-rank and " +
+			"bit-flipped / extended) offered to one of 11 decoders: error, or a value that re-encodes consistently, never a panic; (c) pairs of (stake, address) and of times (as UTC values and as the same instants in other zones) for power-rank and " +
 			"unstaking-queue key parse-back and order. Non-trivial = a value with a nil/empty field or a maximal numeric, a byte string that decodes, or a key pair with equal or byte-boundary powers; " +
 			"distinctness = hash of the item",
 		Gen: genC20, New: func() interface{} { return &c20Prog{} }, Exec: execC20,
